@@ -89,6 +89,7 @@ partial def loop (decl : Json) (version : String) (stdin : IO.FS.Stream) (worlds
     let auxPath := match rest with
       | "aux" :: p :: _ => some p
       | _ => none
+    let cull := !(rest.contains "nocull")
     let r : Except String (List (String × Live)) ← (do
       let txt ← IO.FS.readFile file
       match Json.parse txt with
@@ -98,7 +99,7 @@ partial def loop (decl : Json) (version : String) (stdin : IO.FS.Stream) (worlds
         let aux ← (match auxPath with
           | some p => parseAux p
           | none => pure [])
-        match (parseWorld (R := Float) decl version doc) aux with
+        match (parseWorld (R := Float) decl version doc cull) aux with
         | .error e => return .error (toString e)
         | .ok (pw, _) =>
           let s0 := match seed.toNat? with
@@ -157,6 +158,13 @@ partial def loop (decl : Json) (version : String) (stdin : IO.FS.Stream) (worlds
             | .ok n => do IO.println s!"ok {n}"; pure worlds
             | .error e => do IO.println s!"err {e}"; pure worlds
           | none => do IO.println "err bad-args"; pure worlds
+        | "dist" =>
+          match args[0]?, fl 1, fl 2, fl 3, fl 4 with
+          | some nm, some x, some y, some z, some d =>
+            match lv.world.distanceToPlane ⟨x, y, z⟩ d (nm.replace "~" " ") with
+            | .ok (a, b) => do IO.println (fmtOut [a, b]); pure worlds
+            | .error e => do IO.println s!"err {e}"; pure worlds
+          | _, _, _, _, _ => do IO.println "err bad-args"; pure worlds
         | "tags" => do
           IO.println s!"ok {lv.tags.length} {"|".intercalate lv.tags}"; pure worlds
         | _ => do IO.println "err bad-command"; pure worlds)
